@@ -132,7 +132,13 @@ func c13Once(c *mon.Ctx) {
 	}
 	// CLI accepts names it lists (sample: every 5th, include and exclude)
 	cliAll, _, code := cliListNames()
-	if code != 0 || !sameSet(cliAll, func() map[string]bool { m := map[string]bool{}; for _, li := range Inv { m[li.Name] = true }; return m }()) {
+	if code != 0 || !sameSet(cliAll, func() map[string]bool {
+		m := map[string]bool{}
+		for _, li := range Inv {
+			m[li.Name] = true
+		}
+		return m
+	}()) {
 		c.V("cli-list-all", fmt.Sprintf("zlint -list-lints-json lists %d lints, the registry has %d (exit %d)", len(cliAll), len(Inv), code), "", nil, nil)
 	}
 	step := c.Pick(7, 1)
@@ -265,9 +271,9 @@ func sameSet(a, b map[string]bool) bool {
 
 func init() {
 	mon.Register(&mon.Check{
-		ID:    "C13",
-		Procs: func(c *mon.Ctx) int { return 1 },
-		Rule:  "exhaustive over what the live registry and the real CLI list: every name is used alone as include and exclude name (library; CLI for every 7th at quick, all at thorough); every source goes through SourceList.FromString, LintSource.FromString, a JSON round trip, the library filter and `zlint -includeSources/-excludeSources X -list-lints-json` (exact set compared); every profile printed by -list-profiles is resolved and used; seeded unknown sources / names / profiles must be rejected by library and CLI. distinct_nontrivial = names + sources + profiles + unknown strings checked.",
+		ID:          "C13",
+		Procs:       func(c *mon.Ctx) int { return 1 },
+		Rule:        "exhaustive over what the live registry and the real CLI list: every name is used alone as include and exclude name (library; CLI for every 7th at quick, all at thorough); every source goes through SourceList.FromString, LintSource.FromString, a JSON round trip, the library filter and `zlint -includeSources/-excludeSources X -list-lints-json` (exact set compared); every profile printed by -list-profiles is resolved and used; seeded unknown sources / names / profiles must be rejected by library and CLI. distinct_nontrivial = names + sources + profiles + unknown strings checked.",
 		Assumptions: []string{"profiles are read from the real CLI's -list-profiles output (the harness does not link the profiles package)"},
 		Setup:       setupCommon,
 		Once:        c13Once,
